@@ -423,11 +423,14 @@ pub fn execute(scn: &Scn, property: &str) -> RunOutcome {
                 let tau_s = c07_tau.as_secs_f64();
                 let total = spec.states[cur].as_ref().map(oracle::merged_total);
                 // expected is_ended from the configuration
+                // (the grid of eighths is exact in f32 only below 2^21 s: beyond that a "grid" run
+                // is treated like any other)
+                let on_exact_grid = scn.grid && tau_s < 2_097_152.0 && total.flatten().map(|u| u < 2_097_152.0).unwrap_or(true);
                 let (expected, band) = match total {
                     None => (true, false),           // no timeline
                     Some(None) => (false, false),    // some component repeats infinitely
                     Some(Some(u)) => {
-                        let exp = if scn.grid {
+                        let exp = if on_exact_grid {
                             // exact: compare in nanoseconds
                             let u_ns = (u * 1e9).round() as u128;
                             c07_tau.as_nanos() >= u_ns
@@ -438,11 +441,11 @@ pub fn execute(scn: &Scn, property: &str) -> RunOutcome {
                         // (time in state -> f32; delay + cycle x cycles in f32): within 2 ulps of
                         // the end instant either answer is within float rounding
                         let ulp = (f32::EPSILON as f64) * u.abs().max(1e-30);
-                        (exp, !scn.grid && (tau_s - u).abs() <= 2.0 * ulp + 2e-9)
+                        (exp, !on_exact_grid && (tau_s - u).abs() <= 2.0 * ulp + 2e-9)
                     }
                 };
                 if let Some(Some(u)) = total {
-                    if scn.grid && (tau_s == u) {
+                    if on_exact_grid && (tau_s == u) {
                         out.count("probe.landed_exactly_on_end");
                     }
                 }
@@ -503,13 +506,13 @@ pub fn execute(scn: &Scn, property: &str) -> RunOutcome {
                         None => false,
                         Some(None) => false,
                         Some(Some(u)) => {
-                            let exp = if scn.grid {
+                            let exp = if on_exact_grid && m_tau < 2_097_152.0 {
                                 model.tau.as_nanos() >= (u * 1e9).round() as u128
                             } else {
                                 m_tau >= u
                             };
                             let ulp = (f32::EPSILON as f64) * u.abs().max(1e-30);
-                            let in_band = !scn.grid && (m_tau - u).abs() <= 2.0 * ulp + 2e-9;
+                            let in_band = !(on_exact_grid && m_tau < 2_097_152.0) && (m_tau - u).abs() <= 2.0 * ulp + 2e-9;
                             !in_band && !band && exp != now.ended && model.tau != c07_tau
                         }
                     };
